@@ -11,10 +11,46 @@ CLAIMED = {
          "Static, all-paths decision of the in-repo validator logic: every accepting path of x509.ValidateCodeSigningCertChain passes every condition the property requires in its context, and every rejection origin is guarded by the negation of a stated requirement (so boundaries, operands, positions and the OID/bit/EKU tables are exactly those of the statement); Sign/Verify/Content and the revocation validator route the chain through it. It covers all chains, positions and signing times for the shape of the logic, which a sampled test cannot.",
          "Decides the structure of the in-repo logic only. Trusted: crypto/x509 CheckSignature/CheckSignatureFrom, certificate parsing, go/types. Not decided: signature mathematics, chains with nil elements.",
          "DESIGN.md 5 C03"),
+ "C04": ("modular path-sensitive guard analysis (per-server logic / request helper / error->verdict wrapper), error-type sets, who-may-call",
+         "Every path to an OCSP OK verdict passes: URL parsed, scheme http, request helper succeeded (request for (cert, issuer), context, status 200, capped body, not an unsigned OCSP error body, ParseResponseForCert(body, cert, issuer) ok with exactly these arguments, responder absent / the issuer / carrying id-kp-OCSPSigning), next-update not passed, and status Good or Revoked with the invalidity-date exemption; Revoked only on status Revoked; wrapper table exact; only non-decisive results let the server loop go on; ParseResponse is called nowhere.",
+         "In-repo gating only. Trusted: x/crypto ocsp.ParseResponseForCert (signature and serial check; summary read in the pinned source, DESIGN 4), net/http, clocks.",
+         "DESIGN.md 5 C04"),
+ "C05": ("path-sensitive guard analysis with loop rules (only-after-exhaustion, per-iteration), two-sided table for the bundle validator",
+         "The CRL OK verdict is reachable only through exhaustion of the loop over all distribution points with every per-point gate passed (download, freshest-CRL refusal, issuer signature with the issuer parameter, next-update, critical-extension table, delta number/indicator rules with the stated boundaries); every failure edge can reach only Unknown/Revoked; every rejection of the bundle validator is justified by a stated violation.",
+         "In-repo logic only. Trusted: RevocationList.CheckSignatureFrom (signature, cRLSign/CA), clocks, the caller's Fetcher.",
+         "DESIGN.md 5 C05"),
+ "C06": ("closed-set census of verdict constructors (syntax tree) + guard analysis of each site + error discipline lint + effect scan",
+         "Fail-closed as structure: the set of program points that can produce OK/NonRevokable is enumerated from the syntax tree and each is one of the sites whose guards are proven on every path; verdict fields are never assigned; every error-returning call in the revocation packages has its error bound and tested (no blank assignment/drop; two frozen Body.Close exceptions); download/request helpers succeed only on a good transfer; goroutines write only their own slot; no shared state.",
+         "Does not decide net/http behaviour under real faults, timing or cancellation races inside the transport.",
+         "DESIGN.md 5 C06"),
+ "C10": ("path-sensitive guard analysis of the entry scan (range-over-func loop), iterator literal ordering, two-sided error table",
+         "On every path of the CRL entry interpreter: only the serial comparison happens for other serials; a matching entry lets the scan continue only if temporary or exempt (non-zero signing time, non-zero invalidity date from this entry's 2.5.29.24 extension decoded without error/trailing bytes, strictly later); no OK inside the scan; permanent reasons return Revoked at once; the remembered entry is only replaced by a strictly later one; final verdict by the remembered reason; unknown critical entry extensions refuse; the iterator yields base then delta entries.",
+         "Shape and boundaries of the in-repo interpreter; tie-breaking among equal revocation times is not decided (the property does not fix it).",
+         "DESIGN.md 5 C10"),
+ "C11": ("guard analysis of the validator's per-certificate dispatch (goroutine bodies spliced in), import-graph non-reachability",
+         "Decision table of method selection decided on every path of one iteration: OCSP checker only with responders; CRL checker only after OCSP or without responders and only with distribution points; fallback exactly when the OCSP result is non-nil, Unknown and the certificate has distribution points, bare OCSP result kept exactly otherwise; fallback merge stores method OCSPFallbackCRL and ServerResults = ocsp ++ crl and never the verdict; the standalone OCSP packages do not import the CRL packages.",
+         "Per-source outcome classes are C04/C05; which URLs are contacted at run time beyond call reachability is not decided.",
+         "DESIGN.md 5 C11"),
+ "C12": ("guard/effect analysis of both fan-out entry points: dominance of chain validation, slot stores by index term, literal pairing",
+         "Chain validated first (empty chain / ValidateChain failure return (nil, InvalidChainError-typed error) before anything is spawned, checked or stored); the returned slice is make(len(chain)), never appended/re-sliced; every iteration over chain[:len-1] stores at its own index, root index gets the NonRevokable literal, no other index; checker i gets (chain[i], chain[i+1]) and only its result lands in slot i; Server fields are elements of that certificate's own URL lists; every verdict literal agrees with its nested server results; OCSP aggregate/CRL lists as documented.",
+         "Run-time identity of result objects under caller aliasing is not decided.",
+         "DESIGN.md 5 C12"),
  "C14": ("path-sensitive guard analysis, two-sided atom table, sibling cross-check of the two chain walkers",
          "As C03 for x509.ValidateTimestampingCertChain with the timestamping profile (key usage present on every certificate, leaf EKU exactly timeStamping and critical, no unknown EKU), plus a sibling rule: the walker conditions extracted from the code-signing and the timestamping validators must be identical, so an edit applied to one walker only is reported; routing from timestamp.Timestamp and the revocation validator (purpose Timestamping) is checked.",
          "Structure of in-repo logic only; crypto/x509 signature checks trusted.",
          "DESIGN.md 5 C14"),
+ "C17": ("fork/join structure analysis on the spliced CFG (Add/go/Done/Wait pairing, recover-forward classification, channel capacity) + ownership (write-set) scan",
+         "The classic static argument for schedule independence: per go site, Add(1) before go and always followed by it, Done deferred first, Wait on every path to every exit after a spawn, nothing spawned after Wait; each goroutine recovers and forwards panics on a channel with one slot per goroutine, polled and re-raised after the join, closed only by a deferred call of the spawner; goroutines store only results[i] for their own range key and objects they created; no package-level or receiver state is written in the revocation packages; all go sites of the module are covered and agree.",
+         "Happens-before is taken from sync.WaitGroup semantics; races inside net/http and caller-supplied components, and run-time goroutine counts, are not decided (nothing is executed).",
+         "DESIGN.md 5 C17"),
+ "C18": ("guard analysis of Fetch (modular: download helper and distribution-point parser opaque) + sentinel privacy (who-may-reference) + statelessness scan",
+         "Single-step rules on every path: cached bundle only if cache present, Get ok, base and delta within next-update; miss is never an error, other read errors unless discarded; fresh bundle only after a successful base download, written back under the same URL with the same bundle, write errors unless discarded; delta nil only if not advertised, otherwise first answering advertised location, exhaustion returns the last error; download helper http-only/200/capped/parsed. Statelessness (no receiver or package state written) reduces the history clause to these single-step rules; histories are not explored.",
+         "The caller's Cache implementation and clocks are trusted to their contract.",
+         "DESIGN.md 5 C18"),
+ "C19": ("guard analysis of a small closed function: exact condition set, loop nesting/ordering rules, returned-value terms",
+         "signature.VerifyAuthenticity returns a certificate only on the true edge of (*x509.Certificate).Equal between a chain element and a trust-list element and returns the trust-list element; the scan is chain-major, returns at the first hit, and the not-trusted error only after both scans were exhausted with every comparison false; no other condition (no certificate field) takes part; argument errors exactly for empty trust list / nil signer info; AuthenticSigningTime exactly under signingAuthority with non-zero time (two-sided).",
+         "Trusted: Certificate.Equal is raw-byte equality.",
+         "DESIGN.md 5 C19"),
 }
 
 NOT_YET = {}
